@@ -205,3 +205,11 @@ def gen_component_font(rng, n=None, kinds=("line", "curve", "qcurve"), max_depth
         glyphs.append(g)
     rng.shuffle(glyphs)  # definition order != dependency order
     return {"glyphs": glyphs, "glyphOrder": None}
+
+
+def number_range_error(e):
+    """the compile failed because some number (an outline extreme, a side bearing, a charstring operand, an offset) does not fit
+    the 16- or 32-bit field OpenType gives it: no font exists for that input, whatever ufo2ft does (environment limit)"""
+    msg = str(e)
+    return ("does not fit in format" in msg or "format requires" in msg or isinstance(e, OverflowError)
+            or "out of range" in msg and "struct" in type(e).__module__)
